@@ -173,9 +173,9 @@ def check(ctx):
     C10.check(sub)
     n9 = 0
     for o in sub.obs:
-        if (o["rule"] == "R10.2" and ("resyncs-live-list" in o["key"] or "takes-one-vacant-id" in o["key"] or "returns-its-id-once" in o["key"])) or o["rule"] == "R10.7":
+        if (o["rule"] == "R10.2" and ("resyncs-live-list" in o["key"] or "takes-one-vacant-id" in o["key"] or "returns-its-id-once" in o["key"])) or o["rule"] == "R10.7" or (o["rule"] == "R10.6" and "vacant-snapshot" in o["key"]):
             n9 += 1
-            ctx.ob("R03.9", o["key"].split("|", 1)[1] if o["key"].startswith(("R10.2|", "R10.7|")) else o["key"], o["ok"], o["site"], o["detail"], o["nontrivial"])
+            ctx.ob("R03.9", o["key"].split("|", 1)[1] if o["key"].startswith(("R10.2|", "R10.7|", "R10.6|")) else o["key"], o["ok"], o["site"], o["detail"], o["nontrivial"])
     ctx.floor("R03.9", 4)
     ctx.floor("R03.7", 8)
     ctx.floor("R03.1", 18); ctx.floor("R03.2", 20); ctx.floor("R03.3", 10); ctx.floor("R03.4", 6); ctx.floor("R03.5", 10); ctx.floor("R03.6", 20)
